@@ -58,7 +58,7 @@ def _mc_c17(v):
     lib.require_mc_ok(res, "MC_Integrity FileSpec ideal", need_actions=["Damage", "OpenAndSearch"])
     out["states"] += res.get("distinct", 0)
     out["transitions"] += res.get("states", 0)
-    for fmt in ("asbuilt", "noverify", "walskip"):
+    for fmt in (("asbuilt", "noverify") if quick else ("asbuilt", "noverify", "walskip")):
         r = lib.tlc_mc("MC_Integrity.tla", lib.write_cfg(f"MC_Integrity_{fmt}.cfg", MC_FILES_CFG.format(fmt=fmt)),
                        workers=4, timeout=600, xmx="2g", coverage=False)
         lib.expect_mc_violation(r, f"MC_Integrity FileSpec Format={fmt}", {"Detected"})
@@ -72,7 +72,7 @@ def _mc_c17(v):
     out["transitions"] += res.get("states", 0)
     out["wal_states"] = res.get("distinct", 0)
     out["wal_bounds"] = f"every log of <= {recs} records (add/delete with <= {payload} payload symbols from {{0,2}}, commit marker), every cell x masks {{0x01,0x80,0xFF}}, every truncation length"
-    for bug in ("no_crc", "skip_bad"):
+    for bug in (("no_crc",) if quick else ("no_crc", "skip_bad")):
         r = lib.tlc_mc("MC_Integrity.tla", lib.write_cfg(f"MC_Integrity_wal_{bug}.cfg", MC_WAL_CFG.format(recs=2, payload=1, bug=bug)),
                        workers=4, timeout=600, xmx="2g", coverage=False)
         lib.expect_mc_violation(r, f"MC_Integrity WalSpec WalBug={bug}", {"ReplayIsPrefix"})
@@ -87,7 +87,7 @@ def run_c17(v):
     mc = _mc_c17(v)
     trace = lib.outpath(v.prop, "corrupt.ndjson")
     args = ["corrupt", "--seed", v.seed, "--out", trace, "--scenarios", 2 if quick else 8,
-            "--positions", 200]
+            "--positions", 120 if quick else 200]
     if not quick:
         args += ["--dense"]
     s = lib.svh(binary, args, timeout=7000, env=WORK_ENV)
@@ -112,7 +112,7 @@ def run_c17(v):
         "distinct_nontrivial": s["distinct"],
         "rule": "one evaluation = one damaged copy of one file (flip of one byte with mask 0x01/0x80/0xFF, or truncation to a shorter length) of a freshly built index (2 segments, tombstones, pending log), followed by real open + reader + 5-query battery + log replay + writer under catch_unwind; "
                 + ("every byte x every mask and every length of every file" if not quick else
-                   "files <= 200 bytes exhaustively; otherwise first/last bytes + 200 seeded positions x 3 masks + ~50 seeded lengths per file, and every byte of MANIFEST.json with mask 0x01")
+                   "files <= 120 bytes exhaustively; otherwise first/last bytes + 120 seeded positions x 3 masks + 30 seeded lengths per file, and every byte of MANIFEST.json with mask 0x01")
                 + "; distinct = distinct (file class, JSON-pointer class, damage kind, mask, outcome class, replayed-record count)",
         "exhaustive": not quick,
         "outcomes_by_class": s["by_outcome"],
@@ -129,13 +129,14 @@ def run_c17(v):
         "single fault: exactly one byte flipped or one file truncated per evaluation",
         "observations: match_all with stored fields, two term queries (bm25, wand), a keyword filter, a numeric sort; hits compared in returned order with score bits and stored fields",
         "damage is applied in place and undone afterwards (the manifest stores absolute segment paths, finding S28a)",
+        "the manifest's byte layout differs between runs of the same seed (uuids, timestamp, hash-map order of checksums, scratch path), so seeded offsets hit different tokens; every byte of the manifest is flipped with mask 0x01 in every run, which makes the verdict independent of that",
         "CRC32 is treated as injective in the byte-level log model; on the real code collisions are possible with probability ~2^-32 per damage",
     ]
 
 
 def _mc_c28(v):
     quick = v.tier == "quick"
-    ops = 5 if quick else 7
+    ops = 5 if quick else 9
     invs = "INVARIANT Confined\nINVARIANT SameResults\nINVARIANT OriginalUntouched"
     res = lib.tlc_mc("MC_Relocate.tla", lib.write_cfg("MC_Relocate_rebase.cfg", MC_RELOC_CFG.format(mode="rebase", ops=ops, invs=invs)),
                      timeout=3000, xmx="8g")
@@ -160,7 +161,7 @@ def run_c28(v):
     mc = _mc_c28(v)
     trace = lib.outpath(v.prop, "relocate.ndjson")
     s = lib.svh(binary, ["relocate", "--seed", v.seed, "--out", trace,
-                         "--scenarios", 40 if quick else 600, "--ops", 4 if quick else 8],
+                         "--scenarios", 40 if quick else 4000, "--ops", 4 if quick else 8],
                 timeout=7000, env=WORK_ENV)
     msgs, dt, _ = lib.tlc_trace("Trace_Relocate.tla", trace, timeout=7000, xmx="8g")
     tool = [m for m in msgs if m.get("kind") == "TOOL"]
